@@ -33,15 +33,6 @@ def mapChunksUpTo (sel : Bitmap) (f : Nat → Bool → Bool) : Nat → Bitmap
 /-- chunks `0 … limit` (inclusive) -/
 def mapChunks (sel : Bitmap) (f : Nat → Bool → Bool) : Bitmap := mapChunksUpTo sel f (selLimit sel + 1)
 
-inductive FilterOp
-  | with_ (names : List String)
-  | without (names : List String)
-  | union (names : List String)
-  | withUnion (names : List String)
-  | withNum (col : String) (conv : String) (pred : Bytes → Bool)      -- WithInt / WithUint / WithFloat
-  | withString (col : String) (pred : Bytes → Bool)
-  | withValue (col : String) (pred : Bytes → Bool)
-
 def Txn.with_ (s : Store) (t : Txn) (names : List String) : Txn :=
   names.foldl (fun (t : Txn) n =>
     match s.findCol n with
@@ -96,6 +87,28 @@ def Txn.withValue (s : Store) (t : Txn) (col : String) (pred : Bytes → Bool) :
   | some c =>
     { t with sel := mapChunks t.sel (fun i b =>
         b && (match c.read i with | some v => pred v | none => false)) }
+
+/-- one link of a filter chain (`txn.With(...).Without(...).WithUint(...)…`) -/
+inductive FilterOp
+  | with_ (names : List String)
+  | without (names : List String)
+  | union (names : List String)
+  | withUnion (names : List String)
+  | withNum (col : String) (pred : Bytes → Bool)      -- WithInt / WithUint / WithFloat (predicate on the stored bytes)
+  | withString (col : String) (pred : Bytes → Bool)
+  | withValue (col : String) (pred : Bytes → Bool)
+
+def Txn.applyOp (s : Store) (t : Txn) : FilterOp → Txn
+  | .with_ ns => t.with_ s ns
+  | .without ns => t.without s ns
+  | .union ns => t.union s ns
+  | .withUnion ns => t.withUnion s ns
+  | .withNum col pred => t.withPred s col Kind.isNumeric pred
+  | .withString col pred => t.withPred s col Kind.isTextual pred
+  | .withValue col pred => t.withValue s col pred
+
+/-- a whole chain, left to right -/
+def Txn.chain (s : Store) (t : Txn) (ops : List FilterOp) : Txn := ops.foldl (Txn.applyOp s) t
 
 /-- `Count` -/
 def Txn.count (s : Store) (t : Txn) : Txn × Nat :=
